@@ -105,7 +105,12 @@ def build(t):
         return ParallelChannelPulseTemplate(build(t['b']), {c: poly_str(cf) for c, cf in t['ov'].items()})
     if k in ('arithl', 'arithr'):
         s = t['s']
-        sc = estr(s['all']) if 'all' in s else {c: estr(e) for c, e in s['map'].items()}
+        if 'allt' in s:                   # time dependent scalar: polynomial in t (coefficient list)
+            sc = poly_str(s['allt'])
+        elif 'mapt' in s:
+            sc = {c: poly_str(cf) for c, cf in s['mapt'].items()}
+        else:
+            sc = estr(s['all']) if 'all' in s else {c: estr(e) for c, e in s['map'].items()}
         if k == 'arithl':
             return ArithmeticPulseTemplate(build(t['b']), t['op'], sc)
         return ArithmeticPulseTemplate(sc, t['op'], build(t['b']))
@@ -191,7 +196,8 @@ def _program_obs(prog, channels):
         r0 = F(_ints(np.asarray(lv[0].get_sampled(c, np.array([0.0])), dtype=float))[0], 2 ** 40)
         dl = float(lv[-1].duration) - 1.0 / 32
         re = F(_ints(np.asarray(lv[-1].get_sampled(c, np.array([dl])), dtype=float))[0], 2 ** 40)
-        res[c] = (i16, r0, re)
+        rend = F(_ints(np.asarray(lv[-1].get_sampled(c, np.array([float(lv[-1].duration)])), dtype=float))[0], 2 ** 40)
+        res[c] = (i16, r0, re, rend)
     return res, lv
 
 
@@ -244,7 +250,7 @@ def _run(case, np):
     total = sum(vlib.to_fraction(w.duration) for w in lv)
     obs['real'] = _fj(total)
     for c in chans:
-        obs['ch'][c].update(rint=_fj(ro[c][0]), r0=_fj(ro[c][1]), rlate=_fj(ro[c][2]))
+        obs['ch'][c].update(rint=_fj(ro[c][0]), r0=_fj(ro[c][1]), rlate=_fj(ro[c][2]), rend=_fj(ro[c][3]))
     # pad_to
     pad = F(case.get('pad', '2'))
     target = total + pad
@@ -427,6 +433,8 @@ def g_real(x):
 def to_coq(case, obs):
     if 'crash' in obs or 'hang' in obs:
         return 'CCrash'
+    if case.get('kind') == 'tdarith':
+        return 'CExtern'          # time dependent ArithmeticPT scalars are not modelled: Python oracle only (py_spec)
     nm = names_of(case)
     rho = g_list('(%d%%N, %s)' % (nm[n], gQ(F(v))) for n, v in sorted(case['params'].items()))
     chobs = []
@@ -435,10 +443,12 @@ def to_coq(case, obs):
         chobs.append('(Build_chobs %s %s %s %s %s %s %s %s)' % (
             g_chan(c), g_oq(o['sint']), g_oq(o['sini']), g_oq(o['sfin']), gQ(F(o.get('rint', 0))), gQ(F(o.get('r0', 0))),
             gQ(F(o.get('rlate', 0))), g_list(gQ(F(x)) for x in o.get('pad', []))))
-    return '(CPulse %s %s %s %s %s %s %s %s)' % (g_pt(case['pt'], nm), rho, g_oq(obs['sdur']), g_real(obs['real']),
-                                                 g_list(chobs), gQ(F(case.get('pad', '2'))),
-                                                 g_real(obs.get('padded', 'none')),
-                                                 'false' if case.get('src') == 'malformed' else 'true')
+    gi, gt = G.guard_flags(case)
+    return '(CPulse %s %s %s %s %s %s %s %s %s %s)' % (g_pt(case['pt'], nm), rho, g_oq(obs['sdur']), g_real(obs['real']),
+                                                       g_list(chobs), gQ(F(case.get('pad', '2'))),
+                                                       g_real(obs.get('padded', 'none')),
+                                                       'false' if case.get('src') == 'malformed' else 'true',
+                                                       'true' if gi else 'false', 'true' if gt else 'false')
 
 
 # ---------------------------------------------------------------------------------------------------------------------
@@ -465,6 +475,12 @@ def histogram_keys(case, obs):
     d = _kinds(case['pt'], acc)
     keys = ['depth:%d' % d] + ['node:' + k for k in sorted(set(acc))]
     keys.append('src:' + case.get('src', 'random'))
+    if case.get('kind') == 'tdarith':
+        keys.append('obs:crash' if ('crash' in obs or 'hang' in obs) else 'obs:real=' + (obs['real'] if obs['real'] in ('err', 'none') else 'ok'))
+        return keys
+    gi, gt = G.guard_flags(case)
+    keys.append('guards:%s%s' % ('' if gi else 'initial-head-violated ', '' if gt else 'final-tail-violated') if not (gi and gt)
+                else 'guards:all-hold')
     for sh in case.get('shapes', []):
         keys.append('range:' + sh)
     if 'crash' in obs or 'hang' in obs:
@@ -479,11 +495,12 @@ def classify(case, obs):
 
 
 def search_failing(ctx, broken):
-    """Spec oracle straight on the implementation: exhaustive small for-loop ranges over an index dependent body, and
-    the generated stream; the property is checked in Python (symbolic value == quantity of the instantiated pulse)."""
+    """Spec oracle straight on the implementation: exhaustive small for-loop ranges over an index dependent body (bare
+    and under the loop-carrying wrappers), and the generated stream; the property is checked in Python (symbolic value
+    == quantity of the instantiated pulse)."""
     import random
     rng = random.Random(12345)
-    cases = G.range_sweep(4) + G.gen_cases(rng, 'quick', ctx)
+    cases = G.range_sweep(4) + G.range_sweep(3, -3, G.WRAPPERS[1:]) + G.gen_cases(rng, 'quick', ctx)
     known, _ = vlib.load_known_findings()
     known = known.get(PID, {})
     for c in cases:
@@ -514,7 +531,107 @@ def py_property(case, obs):
             return 'pad_to could not be instantiated'
         if any(x != o['sfin'] for x in o.get('pad', [])) or not o.get('pad'):
             return 'final_values[%s] = %s, padded region plays %s' % (c, o['sfin'], o.get('pad'))
+    if case.get('kind') == 'tdarith' and obs['real'] not in ('none', 'err'):
+        # the atoms of this stream end inside a segment of positive length that is not a hold step, so the sample at
+        # the very end of the last leaf is the voltage the template specifies at its end
+        for c in obs['chans']:
+            o = obs['ch'][c]
+            if o['sfin'] != o['rend']:
+                return 'final_values[%s] = %s, instantiated pulse ends on %s' % (c, o['sfin'], o['rend'])
+    if obs['real'] == 'none' and obs['sdur'] != '0':
+        return 'empty pulse but duration = %s' % obs['sdur']
+    if obs['real'] not in ('none', 'err') and obs['sdur'] != obs['real']:
+        return 'duration = %s, instantiated pulse lasts %s' % (obs['sdur'], obs['real'])
     return None
+
+
+def py_spec(case, obs):
+    return py_property(case, obs)
+
+
+# ---------------------------------------------------------------------------------------------------------------------
+# shrinking
+
+def _subtrees(t):
+    """smaller templates: a child in place of the node, a sequence/multi without one child, a lower repetition count,
+    a shorter loop range, a mapping without its parameter mapping"""
+    out = []
+    k = t['k']
+    for key in ('b', 'l', 'r'):
+        if key in t:
+            out.append(t[key])
+            for v in _subtrees(t[key]):
+                out.append(dict(t, **{key: v}))
+    if 'ps' in t:
+        for i, ch in enumerate(t['ps']):
+            out.append(ch)
+            if len(t['ps']) > 1 and k == 'seq':
+                out.append(dict(t, ps=t['ps'][:i] + t['ps'][i + 1:]))
+            for v in _subtrees(ch):
+                out.append(dict(t, ps=t['ps'][:i] + [v] + t['ps'][i + 1:]))
+    if k == 'rep' and t['n'] != G.C(1):
+        out.append(dict(t, n=G.C(1)))
+    if k == 'map' and t['pm']:
+        out.append(dict(t, pm={}))
+    if k in ('table',) and len(t['ch']) > 1:
+        for c in t['ch']:
+            out.append(dict(t, ch={c: t['ch'][c]}))
+    if k == 'table':
+        for c, es in t['ch'].items():
+            if len(es) > 2:
+                out.append(dict(t, ch=dict(t['ch'], **{c: es[:-1]})))
+    return out
+
+
+def _still_fails(case, ctx, counter):
+    import time
+    if counter['n'] >= 60 or time.time() - counter['t0'] > 120:
+        return None
+    counter['n'] += 1
+    try:
+        obs = run_impl(case)
+    except Exception:
+        return None
+    if 'crash' in obs or 'hang' in obs:
+        return None
+    known, _ = vlib.load_known_findings()
+    if classify(case, obs) in known.get(PID, {}):       # shrinking must not drift into a listed finding
+        return None
+    if py_property(case, obs) is not None:
+        return obs
+    try:
+        wd = os.path.join(ctx['workdir'], 'shrink')
+        res = vlib.run_coq_cases(wd, CORR_IMPORTS, [CHECK_SPEC], [to_coq(case, obs)], shard=SHARD, jobs=1)
+    except Exception:
+        return None
+    return obs if res[CHECK_SPEC] else None
+
+
+def shrink(case, obs, ctx):
+    """greedy structural shrinking of a case on which the property fails (the failure is re-established on the real
+    code for every candidate: Python oracle first, the Coq specification oracle otherwise)"""
+    import time
+    if case.get('kind') not in ('pulse', 'tdarith'):
+        return case, obs
+    counter = {'n': 0, 't0': time.time()}
+    best, best_obs = case, obs
+    progress = True
+    while progress:
+        progress = False
+        for sub in _subtrees(best['pt']):
+            try:
+                if not G.fix_channels(sub):
+                    continue
+                cand = dict(best, pt=sub, params=G.used_params(sub, best['params']), src='shrunk')
+            except Exception:
+                continue
+            o = _still_fails(cand, ctx, counter)
+            if o is not None:
+                best, best_obs, progress = cand, o, True
+                break
+            if counter['n'] >= 60:
+                break
+    return best, best_obs
 
 
 MANIFEST = {
